@@ -1,13 +1,63 @@
 (* C03 - concatenated appendable/catable streams decode to the concatenated contents.
-   Property theorems only. *)
+   Property theorems only.  The model (model/Concat.v) is the repaired src/concat/mod.rs;
+   spec/ConcatSpec.concat_spec is the bit-level meaning of concatenation (written from RFC 7932,
+   not from the code). *)
 From Coq Require Import NArith List.
-From V Require Import lib.Words model.Concat model.ConcatRun spec.ConcatSpec proofs.Concat_proofs.
+From V Require Import lib.Words model.Concat model.ConcatRun spec.ConcatSpec proofs.Concat_proofs proofs.Concat_inv
+  proofs.Concat_run proofs.Concat_findings.
 Import ListNotations.
 Open Scope N_scope.
 
-(* placeholder while the bit-level theorems are being built: the parser used for the window
-   check of every later member is the RFC's *)
-Theorem C03_window_field : forall b0 b1 rest, b0 < 256 -> b1 < 256 ->
-  parse_window_size (b0 :: b1 :: rest) = Val (rfc_wbits (b0 + 256 * b1)).
-Proof. exact parse_window_size_rfc. Qed.
-Print Assumptions C03_window_field.
+(* The full bit-level statement: for members of the appendable/catable shape with non-increasing
+   windows (exactly the lists on which concat_spec is defined), the one-shot run succeeds and emits
+   the bytes concat_spec describes: window field and body of the first member, then for every later
+   member its first meta-block header shifted behind the previous member's last data bit, zero
+   padding to the byte boundary, its remaining bytes verbatim, and one final end marker. *)
+Definition one_shot (ms : list (list N)) : list task :=
+  flat_map (fun m => TFile :: match m with [] => [] | _ => [TChunk m] end) ms ++ [TFinish].
+Definition C03_bits_stmt : Prop :=
+  forall (override : option N) (ms : list (list N)) (expected : list N) (fuel : nat) (cap : N),
+    Forall bytes_ok ms -> (forall w, override = Some w -> 10 <= w /\ w <= 30) ->
+    concat_spec override ms = Some expected ->
+    lenN expected + 16 <= cap -> (4 * length ms + 8 <= fuel)%nat ->
+    let r := run_native fuel [cap] false false [] (one_shot ms) (init override) in
+    rr_final r = Done Success /\ rr_emitted r = expected.
+(* Proved of the statement so far: the run never panics and keeps the invariant (C03_bits_partial),
+   the window field is read as RFC 7932 says (C16_parse), and the statement holds on the witnesses
+   below, which are the cases the code got wrong before the repairs.  Missing: the general
+   bit-shifting lemma for realign/copy_whole (that realigned_header holds the header bits at offset
+   last_byte_bit_offset followed by the whole bytes) and the induction over members; until then the
+   statement is checked on every generated list by checks/c03.py (concat_spec applied to the
+   implementation's output, plus two independent decoders). *)
+Theorem C03_bits_partial : forall fuel caps percall rall rs tasks s0,
+  Inv s0 -> tasks_ok (Started s0) tasks ->
+  rr_final (run_native fuel caps percall rall rs tasks s0) <> Panicked.
+Proof. exact run_native_never_panics. Qed.
+Print Assumptions C03_bits_partial.
+
+(* The statement was false of the code before the repairs 3985c2c, 43a0d2f, a559e26, in three
+   ways (each replayed on the real pre-fix code; fixed, see known_findings.json), and holds of
+   the repaired model on the same witnesses. *)
+Theorem C03_bits_refuted_before_fix_straddle :
+  result (run_orig 100 [64] false false [] [TFile; TChunk [59]; TFinish] (o_init (Some 15))) = (Done Success, [113; 128; 128]) /\
+  concat_spec (Some 15) [[59]] = Some [241; 1].
+Proof. exact C03_bits_refuted_orig_straddle. Qed.
+Print Assumptions C03_bits_refuted_before_fix_straddle.
+
+Theorem C03_bits_refuted_before_fix_w16 :
+  result (run_orig 100 [64] false false [] [TFinish] (o_init (Some 16))) = (Done Success, [7]) /\
+  concat_spec (Some 16) [] = Some [6] /\ rfc_wbits 7 = Some (20, 4).
+Proof. exact C03_bits_refuted_orig_w16. Qed.
+Print Assumptions C03_bits_refuted_before_fix_w16.
+
+Theorem C03_bits_refuted_before_fix_trailing :
+  result (run_orig 100 [64] false false [] [TFile; TChunk [129; 1]; TFinish] (o_init (Some 30))) = (Done Success, [17; 222; 30]) /\
+  concat_spec (Some 30) [[129; 1]] = Some [17; 222].
+Proof. exact C03_bits_refuted_orig_trailing. Qed.
+Print Assumptions C03_bits_refuted_before_fix_trailing.
+
+Theorem C03_bits_on_former_witnesses :
+  Some (rr_emitted (run_native 100 [64] false false [] [TFile; TChunk [59]; TFinish] (init (Some 15)))) = concat_spec (Some 15) [[59]] /\
+  Some (rr_emitted (run_native 100 [64] false false [] [TFile; TChunk [129; 1]; TFinish] (init (Some 30)))) = concat_spec (Some 30) [[129; 1]].
+Proof. exact (conj C03_straddle_fixed C03_trailing_fixed). Qed.
+Print Assumptions C03_bits_on_former_witnesses.
